@@ -497,6 +497,22 @@ class UnitScopeMachine(Machine):
         self._same_as(sc["pre"], where, "leak/after_close")
 
     def apply(self, op):
+        try:
+            return self._apply(op)
+        except Violation:
+            raise
+        except (KeyError, AttributeError, TypeError, ValueError) as e:
+            # the tables themselves can no longer be read consistently
+            import traceback
+            tb = traceback.extract_tb(e.__traceback__)
+            if any("scinumtools" in f.filename for f in tb[-2:]):
+                raise Violation("tables_unreadable",
+                                {"op": op.get("op"), "error": [type(e).__name__,
+                                                               repr(e.args)[:200]]},
+                                signature="C09/tables_unreadable")
+            raise
+
+    def _apply(self, op):
         kind = op["op"]
         depth0 = len(self.stack)
         out = None
